@@ -79,17 +79,9 @@ func describe(root, n ast.Vertex) string {
 	return out
 }
 
-// TestExhaustiveKinds: every kind x every subset of its child slots x list lengths {0,1,3}.
-func TestExhaustiveKinds(t *testing.T) {
-	if harness.Shard() != 0 {
-		t.Skip("enumeration runs on shard 0")
-	}
-	if err := astx.SelfTest(); err != nil {
-		t.Fatal(err)
-	}
-	if recvis.MethodCount != len(astx.Kinds()) {
-		t.Fatalf("recorder has %d methods, ast.Visitor has %d kinds: regenerate recvis", recvis.MethodCount, len(astx.Kinds()))
-	}
+// enumerateKinds runs the synthetic-node enumeration; with only != "" just the case of that
+// description is evaluated (replay of a recorded case).
+func enumerateKinds(t *testing.T, only string) (int, bool) {
 	total := 0
 	for _, s := range astx.Kinds() {
 		slots := synth.SlotFields(s, astx.FChild, astx.FChildList)
@@ -105,13 +97,18 @@ func TestExhaustiveKinds(t *testing.T) {
 				}
 				listLen := func(int) int { return ll }
 				n := synth.Build(s, &synth.Markers{Deep: true}, present, listLen, nil)
-				harness.Eval()
+				if only == "" {
+					harness.Eval()
+				}
 				total++
 				d := synth.Describe(s, present, listLen)
+				if only != "" && d != only {
+					continue
+				}
 				harness.NonTrivial([]byte(d), d)
 				if m := compareWalk(n); m != "" {
 					harness.Failf(t, "exhaustive-kinds", []byte(d), map[string]string{"node": d}, "%s: %s", d, m)
-					return
+					return total, false
 				}
 				hasList := false
 				for _, f := range slots {
@@ -124,6 +121,24 @@ func TestExhaustiveKinds(t *testing.T) {
 				}
 			}
 		}
+	}
+	return total, true
+}
+
+// TestExhaustiveKinds: every kind x every subset of its child slots x list lengths {0,1,3}.
+func TestExhaustiveKinds(t *testing.T) {
+	if harness.Shard() != 0 {
+		t.Skip("enumeration runs on shard 0")
+	}
+	if err := astx.SelfTest(); err != nil {
+		t.Fatal(err)
+	}
+	if recvis.MethodCount != len(astx.Kinds()) {
+		t.Fatalf("recorder has %d methods, ast.Visitor has %d kinds: regenerate recvis", recvis.MethodCount, len(astx.Kinds()))
+	}
+	total, ok := enumerateKinds(t, "")
+	if !ok {
+		return
 	}
 	harness.ClassN("synthetic-nodes", total)
 	harness.Exhaustive(fmt.Sprintf("all %d node kinds x every subset of child slots x list lengths {0,1,3}", len(astx.Kinds())))
@@ -197,7 +212,9 @@ func TestReplay(t *testing.T) {
 		t.Fatal(err)
 	}
 	if vi.Meta["node"] != "" {
-		t.Skip("synthetic node cases are re-enumerated by TestExhaustiveKinds: " + vi.Meta["node"])
+		harness.Eval()
+		enumerateKinds(t, vi.Meta["node"]) // the recorded synthetic node only
+		return
 	}
 	for _, v := range px.AllVersions {
 		if vi.Meta["version"] != "" && vi.Meta["version"] != v.String() {
